@@ -385,15 +385,23 @@ theorem checkProds_sound (outs : List OutW) (exps : Nat → List Item) :
     | fail c a b => rw [hp] at h; cases h
 
 theorem checkRun_sound (np : Nat) (exps : Nat → List Item) (outs : List OutW) (h : checkRun np exps outs = .pass) :
-    (∀ o ∈ outs, o.gid < np) ∧ ∀ g, g < np → Conforms (exps g) (expandOut g outs) := by
+    (∀ o ∈ outs, o.gid < np) ∧ (∀ o ∈ outs, o.entries.isSome → o.dups = 0) ∧
+      ∀ g, g < np → Conforms (exps g) (expandOut g outs) := by
   unfold checkRun at h
   split at h
   · cases h
   · rename_i hnone
-    refine ⟨?_, fun g hg => checkProds_sound outs exps np 0 h g (by omega) (by omega)⟩
-    intro o ho
-    have := List.find?_eq_none.mp hnone o ho
-    simpa using this
+    split at h
+    · cases h
+    · rename_i hnone2
+      refine ⟨?_, ?_, fun g hg => checkProds_sound outs exps np 0 h g (by omega) (by omega)⟩
+      · intro o ho
+        have := List.find?_eq_none.mp hnone o ho
+        simpa using this
+      · intro o ho hs
+        have := List.find?_eq_none.mp hnone2 o ho
+        simp [OutW.mergedTracer, hs] at this
+        exact this
 
 /-! ### Liveness: the writer alone can drain the buffer -/
 
